@@ -74,15 +74,20 @@ def run_reader(chunks, line_limit=None):
         return loc
     if line_limit:
         sys.settrace(tr)
+    died = None
     try:
         conn.work_read_queue(_thread=Stub())
     except Done:
         pass
     except Spin:
         spun = True
+    except Exception as e:   # noqa -- the reader thread would have died here
+        died = type(e).__name__
     finally:
         if line_limit:
             sys.settrace(None)
+    if died:
+        return delivered, "died:" + died, bytes(conn._read_buffer), spun
     return delivered, bool(closed), bytes(conn._read_buffer), spun
 
 
@@ -92,11 +97,21 @@ def frames_corpus(rng, rows_by_ty):
     return good
 
 
-def undecodable(rng):
-    """a frame with a consistent header whose body does not decode"""
-    body = bytes.fromhex("000001074000")          # truncated AVP header
+def undecodable(rng, kind=0):
+    """a frame with a consistent header whose body does not decode.  kind 0: truncated AVP header (the unpacker's
+    ConversionError); kind 1: intact AVP framing, but a Grouped AVP whose payload is garbage (AvpDecodeError raised while the
+    typed class reads its attributes); kind 2: the same inside a Credit-Control request"""
+    def avp(code, payload, flags=0x40):
+        n = 8 + len(payload)
+        return code.to_bytes(4, "big") + bytes([flags]) + n.to_bytes(3, "big") + payload + bytes((-n) % 4)
+    if kind == 0:
+        body, cmd = bytes.fromhex("000001074000"), 272
+    elif kind == 1:
+        body, cmd = avp(260, bytes.fromhex("0000010a400000" "0c00")), 257
+    else:
+        body, cmd = avp(263, b"s;1") + avp(456, b"\xff\xff\xff"), 272
     n = 20 + len(body)
-    return bytes([1]) + n.to_bytes(3, "big") + bytes.fromhex("80000110") + bytes(12) + body
+    return bytes([1]) + n.to_bytes(3, "big") + bytes([0x80]) + cmd.to_bytes(3, "big") + bytes(12) + body
 
 
 def with_length(frame, L):
@@ -124,7 +139,8 @@ def check(run):
     for code, vendor, tn, m, name, vf in rows:
         rows_by_ty.setdefault(tn, []).append((code, vendor))
     good = frames_corpus(rng, rows_by_ty)
-    bad = undecodable(rng)
+    bads = [undecodable(rng, k) for k in range(3)]
+    bad = bads[0]
     cases, meta = [], []
 
     def decodes(fr):
@@ -146,6 +162,10 @@ def check(run):
         if spun:
             run.violation("progress", case, "reader spins without consuming input",
                           what="reader loops without consuming input")
+        if isinstance(closed, str):
+            run.violation("reader-survives", case, closed,
+                          what=f"an exception ({closed[5:]}) escapes work_read_queue: the reader thread ends and the connection is never serviced again")
+            return
         all_wellformed = all(r in ("good", "bad") for _, r in stream_frames)
         if all_wellformed and not spun:
             want = [f for f, r in stream_frames if r == "good"]
@@ -169,12 +189,14 @@ def check(run):
         pool = short if si % 3 else good
         sf = []
         for _ in range(k):
-            if rng.random() < 0.2:
-                sf.append((bad, "bad"))
+            if rng.random() < 0.25:
+                sf.append((rng.choice(bads), "bad"))
             else:
                 sf.append((rng.choice(pool), "good"))
         if si == 1:
             sf = [(bad, "bad"), (short[0], "good")]      # the seed-corpus history
+        if si in (2, 3):
+            sf = [(short[0], "good"), (bads[si - 1], "bad"), (short[1 % len(short)], "good")]
         # unique hop-by-hop ids so that delivery order is observable
         sf = [(f[:12] + (1000 + i).to_bytes(4, "big") + f[16:], r) for i, (f, r) in enumerate(sf)]
         stream = b"".join(f for f, _ in sf)
